@@ -19,8 +19,11 @@
      - C01_..._partial: the same clauses under the named per-call hypotheses [wire_ok_req], [wire_ok_rsp],
        [args_roundtrip], [results_roundtrip] instead of typing (any values, pre-filled out variables; evaluated on every
        sampled call by the correspondence).
-     - C01_transparent_ok_any_outs_statement (any content of the out variables, exact values) is REFUTED:
-       a pre-filled out variable keeps stale content (known finding; C01_prefilled_out_refuted). *)
+     - C01_transparent_ok_any_outs_statement (any content of the out variables) is kept visible and NOT proved: at the
+       pinned revision it was refuted by a pre-filled out variable keeping stale content; the generator template and
+       ReadSliceInt8/Uint8 were repaired since (fix commits in the repo history; former known findings
+       e2e/out/prefilled-out-variable/...), and the refuting instance now satisfies it (C01_prefilled_out_witness). The
+       closed theorem C01_transparent_ok still asks for fresh out variables [outs_fresh]. *)
 From Coq Require Import List NArith ZArith Bool.
 From TarsV Require Import Gen.Consts Gen.Schemas Base.Hex Codec.GenCodec Codec.RoundTrip Frame.Framing Rpc.ValueWire Rpc.Filters Rpc.FiltersProofs
   Rpc.EndToEnd Rpc.EndToEndProofs Rpc.EndToEndConc Rpc.EndToEndCorr Rpc.EndToEndFull Rpc.EndToEndExamples.
@@ -41,10 +44,16 @@ Definition C01_transparent_ok_any_outs_statement : Prop :=
     fst (call e sid_req sid_rsp max impl (filters_of inv_res Pc) (filters_of disp_res Ps) i f args o false id sv t)
     = COk ret outs (maps_after o rc rs).
 
-(* refuted on the faithful model (and on the code: known finding e2e/out/prefilled-out-variable/...): the caller's
-   out variable of type Item holds nums = [1; -5000000000], the implementation sets nums = [], the caller reads the old nums *)
-Theorem C01_prefilled_out_refuted : ~ C01_transparent_ok_any_outs_statement.
-Proof. exact EndToEndExamples.prefilled_out_refutes. Qed.
+(* the instance that refuted it at the pinned revision (the caller's out variable of type Item holds
+   nums = [1; -5000000000], the implementation sets nums = []; the caller read the old nums) satisfies all its
+   hypotheses and, on the repaired model and code, its conclusion: the caller reads nums = [] *)
+Theorem C01_prefilled_out_witness :
+  find_fn [fx_sig] (fs_name fx_sig) = Some fx_sig /\ sig_fine env0 2 4 fx_sig /\ args_typed env0 (fs_args fx_sig) fx_args_prefilled /\
+  outs_skippable fx_sig fx_args_prefilled /\ results_typed env0 fx_sig (results ex_ret fx_outs_empty) /\
+  req_sendable env0 SR MAXP fx_qp /\ rsp_sendable env0 SP MAXP (ok_reply env0 fx_sig fx_qp ex_ret fx_outs_empty ex_rc ex_rs) /\
+  fst (call env0 SR SP MAXP fx_impl_empty (filters_of inv_res ex_pc) (filters_of disp_res ex_ps) [fx_sig] fx_sig fx_args_prefilled ex_opts false 41 [79; 98; 106] 3000)
+  = COk ex_ret fx_outs_empty [ex_rc; ex_rs].
+Proof. exact EndToEndExamples.prefilled_out_witness. Qed.
 
 (* success, no codec hypothesis: well-formed schemas (tags ascending, defaults on scalars, by-value nesting <= k), the
    two packet schemas as regenerated from the code, any signature within the static size conditions, out arguments the
@@ -209,7 +218,7 @@ Theorem C01_concurrent_any_order : forall e k sid_req sid_rsp max impl (Ps : pfi
     forall q, In q qs -> client_conn e sid_rsp max chunks_p (q_id q) = srv_reply e impl i q.
 Proof. intros e k sid_req sid_rsp max impl Ps i qs sent cq written cp Hwf Hk Hq Hp Hm. exact (EndToEndFull.concurrent_closed e k Hwf Hk sid_req sid_rsp Hq Hp max Hm impl Ps i qs sent cq written cp). Qed.
 
-Print Assumptions C01_prefilled_out_refuted.
+Print Assumptions C01_prefilled_out_witness.
 Print Assumptions C01_transparent_ok.
 Print Assumptions C01_transparent_err.
 Print Assumptions C01_oneway.
